@@ -50,11 +50,18 @@ def Store.addOp (acl : Acl) (s : Store) (mk : Nat → List Nat → Entry) : Stor
     let st := recalcStatus L'.entries.length s.status e.time
     ({ s with log := L', status := st, localHeads := some [e.hash], idx := updateIndex s.kind s.idx L' }, .ok e)
 
-/-- outcome of the per-head pre-check loop of `Sync` -/
-def syncPrecheck (acl : Acl) : List Entry → Err
+/-- outcome of the per-head pre-check loop of `Sync` on heads that carry this log's id and a valid signature -/
+def syncPrecheck0 (acl : Acl) : List Entry → Err
   | [] => .ok
-  | h :: hs => if !acl.canAppend h then syncPrecheck acl hs
-               else if !h.hashOk then .hashMismatch else syncPrecheck acl hs
+  | h :: hs => if !acl.canAppend h then syncPrecheck0 acl hs
+               else if !h.hashOk then .hashMismatch else syncPrecheck0 acl hs
+
+/-- the pre-check loop of `Sync` of the store whose log has id `id` (after the `fix:` commits, findings
+F21 and F22): a head written for another log, or not signed by the identity it names, is skipped
+like one the access controller refuses — skipping changes nothing, so it is the same as not having
+received it — and the rest goes through `syncPrecheck0` -/
+def syncPrecheck (acl : Acl) (id : Nat) (heads : List Entry) : Err :=
+  syncPrecheck0 acl (heads.filter (fun h => h.logId == id && h.sigOk))
 
 /-- joins of `replicationLoadComplete`: each log in turn; a rejected log is skipped (after the
 `fix:` commit — the pinned tree aborted at the first error, see `joinAllPinned`) -/
